@@ -252,14 +252,20 @@ class PiecewiseEstimator(BaseEstimator):
 
         if hasattr(self, "random_state") and self.random_state is not None:
             rnd = numpy.random.RandomState(self.random_state)
+            # one generator per bucket: sharing a single one between the
+            # threads makes the result depend on the order they run in
+            rnds = [
+                numpy.random.RandomState(seed)
+                for seed in rnd.randint(0, 2**31 - 1, len(estimators))
+            ]
         else:
-            rnd = None
+            rnds = [None for _ in estimators]
 
         self.estimators_ = Parallel(
             n_jobs=self.n_jobs, verbose=verbose, prefer="threads"
         )(
             delayed(_fit_piecewise_estimator)(
-                i, estimators[i], X, y, sample_weight, association, nb_classes, rnd
+                i, estimators[i], X, y, sample_weight, association, nb_classes, rnds[i]
             )
             for i in loop
         )
